@@ -30,6 +30,14 @@ class S:
     def __rtruediv__(self, o): return self._b(o, lambda a, b: b / a)
     def __neg__(self): return S(-self.t)
     def __pos__(self): return self
+    def __abs__(self): return S(z3.If(self.t >= 0, self.t, -self.t))
+    def _c(self, o, f):
+        if isinstance(o, np.ndarray): return NotImplemented
+        return B(f(self.t, R(o)))
+    def __lt__(self, o): return self._c(o, lambda a, b: a < b)
+    def __le__(self, o): return self._c(o, lambda a, b: a <= b)
+    def __gt__(self, o): return self._c(o, lambda a, b: a > b)
+    def __ge__(self, o): return self._c(o, lambda a, b: a >= b)
     def __float__(self): raise TypeError('symbolic cell used where a concrete float is required')
     def __bool__(self): raise TypeError('truth value of a symbolic cell')
     def __repr__(self): return 'S(%s)' % self.t
@@ -57,6 +65,11 @@ class NpShim:
         a = np.empty(shape, dtype=object); a.fill(S(z3.RealVal(0))); return a
     def ones(self, shape, dtype=None, **kw):
         a = np.empty(shape, dtype=object); a.fill(S(z3.RealVal(1))); return a
+    def isclose(self, a, b, rtol=1e-05, atol=1e-08, equal_nan=False):
+        return _elem(lambda x, y: B(z3.If(R(x) - R(y) >= 0, R(x) - R(y), R(y) - R(x)) <= R(atol) + R(rtol) * z3.If(R(y) >= 0, R(y), -R(y))), a, b)
+    def allclose(self, a, b, rtol=1e-05, atol=1e-08, equal_nan=False):
+        cells = [c.t for c in self.isclose(a, b, rtol, atol).ravel()]
+        return B(z3.And(*cells)) if cells else True
     def eye(self, n, dtype=None, **kw):
         a = np.empty((n, n), dtype=object)
         for i in range(n):
@@ -114,7 +127,48 @@ class B:
     def __and__(self, o): return B(z3.And(self.t, o.t if isinstance(o, B) else z3.BoolVal(bool(o))))
     def __or__(self, o): return B(z3.Or(self.t, o.t if isinstance(o, B) else z3.BoolVal(bool(o))))
     def __invert__(self): return B(z3.Not(self.t))
-    def __bool__(self): raise TypeError('truth value of a symbolic boolean')
+    def __bool__(self):
+        # data-dependent branch of the code under test: decided by the path engine (fork by re-execution), if one is active
+        if ENGINE[0] is None: raise TypeError('truth value of a symbolic boolean')
+        return ENGINE[0].branch(self.t)
+
+
+ENGINE = [None]
+
+
+class Paths:
+    """depth-first exploration of the code's data-dependent branches by re-execution: every `if` on a symbolic boolean asks z3 which sides are
+    feasible under the path condition so far (unknown counts as feasible), follows one and queues the other"""
+    def __init__(self, base=(), timeout_ms=10000): self.base = list(base); self.decisions = []; self.pos = 0; self.pc = []; self.nq = 0; self.timeout_ms = timeout_ms
+    def _feasible(self, extra):
+        s = z3.Solver(); s.set('timeout', self.timeout_ms); s.add(*self.base); s.add(*self.pc); s.add(extra); self.nq += 1
+        return s.check() != z3.unsat
+    def branch(self, cond):
+        c = z3.simplify(cond)
+        if z3.is_true(c): return True
+        if z3.is_false(c): return False
+        if self.pos < len(self.decisions): v = self.decisions[self.pos][0]
+        else:
+            okT = self._feasible(c); okF = self._feasible(z3.Not(c))
+            if not (okT or okF): raise RuntimeError('infeasible path reached')
+            self.decisions.append([okT, okT and okF]); v = okT
+        self.pos += 1; self.pc.append(c if v else z3.Not(c)); return v
+    def next_path(self):
+        while self.decisions and not self.decisions[-1][1]: self.decisions.pop()
+        if not self.decisions: return False
+        self.decisions[-1] = [not self.decisions[-1][0], False]; return True
+
+
+def explore(fn, base=(), max_paths=64):
+    """run fn() once per feasible path; yields (path condition, fn result, engine)"""
+    eng = Paths(base); n = 0
+    while True:
+        eng.pos = 0; eng.pc = []; ENGINE[0] = eng
+        try: ret = fn()
+        finally: ENGINE[0] = None
+        yield list(eng.pc), ret, eng
+        n += 1
+        if n >= max_paths or not eng.next_path(): return
 
 
 class F:
